@@ -4,6 +4,9 @@ import (
 	"bufio"
 	"bytes"
 	"crypto"
+	"crypto/x509"
+	"crypto/x509/pkix"
+	"encoding/asn1"
 	"fmt"
 	"math/rand"
 	"os"
@@ -12,6 +15,7 @@ import (
 	"strings"
 	"time"
 
+	"github.com/gr33nbl00d/caddy-revocation-validator/core"
 	"github.com/gr33nbl00d/caddy-revocation-validator/core/asn1parser"
 )
 
@@ -270,6 +274,7 @@ func runC07(r *Run) {
 		}
 	}
 	c07Values(r)
+	c07Candidates(r)
 	c07FatalChild(r, dir)
 }
 
@@ -331,6 +336,122 @@ func c07Values(r *Run) {
 		}
 		if delta > c07AllocBudget(len(v)) {
 			r.Violate("C07 unbacked-allocation value-parser", fmt.Sprintf("value %s allocated %d bytes", hexs(v), delta), map[string]string{"value_hex": hexs(v)})
+		}
+	}
+}
+
+// c07Candidates: the authority key identifier of a CRL is attacker-supplied and is parsed *after* the reader is done, when the
+// signer is looked for (handshake path: IsRevoked -> AddCRL -> loadCRL -> verifyCRLSignature, which has no recover of its own).
+// Every combination of the three optional fields (also the ones RFC 5280 rules out: a name without a serial, a serial without
+// a name, nothing at all), every GeneralName kind, wrong tags, truncations and garbage, against chains with and without
+// subject key identifiers: the search returns candidates or an error.
+func c07Candidates(r *Run) {
+	rng := r.Rng
+	ca := NewCA(CAOpts{CN: "C07 cand CA", EC: true})
+	noSki := NewCA(CAOpts{CN: "C07 cand no ski", EC: true, Parent: ca})
+	leaf := ca.IssueLeaf(LeafOpts{})
+	var issuer pkix.RDNSequence
+	if _, err := asn1.Unmarshal(ca.Cert.RawSubject, &issuer); err != nil {
+		panic(err)
+	}
+	chainSets := []*core.CertificateChains{
+		core.NewCertificateChains([][]*x509.Certificate{{leaf.Cert, ca.Cert}}, nil),
+		core.NewCertificateChains([][]*x509.Certificate{{leaf.Cert, noSki.Cert, ca.Cert}}, []*x509.Certificate{ca.Cert}),
+		core.NewCertificateChains(nil, nil),
+		core.NewCertificateChains([][]*x509.Certificate{{}}, nil),
+	}
+	serial := ca.Cert.SerialNumber.Bytes()
+	part := func(kind int) []byte {
+		switch kind {
+		case 0:
+			return derTLV(0x80, ca.Cert.SubjectKeyId)
+		case 1:
+			return derTLV(0xA1, derTLV(0xA4, ca.Cert.RawIssuer))
+		case 2:
+			return derTLV(0x82, serial)
+		case 3:
+			return derTLV(0xA1, derTLV(0x86, []byte("http://ca.example/")))
+		case 4:
+			return derTLV(0xA1) // empty GeneralNames
+		case 5:
+			return derTLV(0xA1, derTLV(0xA4)) // empty directoryName
+		case 6:
+			return derTLV(0xA1, derTLV(0xA4, []byte{0x31, 0x84, 0x7f, 0xff, 0xff, 0xff}))
+		case 7:
+			return derTLV(0x82) // empty INTEGER
+		case 8:
+			return derTLV(0x80) // empty key id
+		case 9:
+			return derTLV(0xA1, derTLV(0xA4, ca.Cert.RawIssuer), derTLV(0x86, []byte("x")))
+		case 10:
+			return derTLV(0x82, append([]byte{0xff}, serial...))
+		}
+		return derTLV(byte(0x80+rng.Intn(0x40)), make([]byte, rng.Intn(6)))
+	}
+	var values [][]byte
+	// every subset of the three regular fields, in order
+	for m := 0; m < 8; m++ {
+		var ps [][]byte
+		for b := 0; b < 3; b++ {
+			if m&(1<<b) != 0 {
+				ps = append(ps, part(b))
+			}
+		}
+		values = append(values, derSeq(ps...))
+	}
+	// irregular fields alone and next to regular ones
+	for k := 3; k <= 10; k++ {
+		values = append(values, derSeq(part(k)), derSeq(part(0), part(k)), derSeq(part(k), part(2)), derSeq(part(0), part(k), part(2)))
+	}
+	n := 1500
+	if r.Thorough() {
+		n = 60000
+	}
+	for i := 0; i < n; i++ {
+		var ps [][]byte
+		for j, k := 0, rng.Intn(4); j < k; j++ {
+			ps = append(ps, part(rng.Intn(12)))
+		}
+		v := derSeq(ps...)
+		switch rng.Intn(6) {
+		case 0:
+			if len(v) > 2 {
+				v = v[:2+rng.Intn(len(v)-2)]
+			}
+		case 1:
+			v = append([]byte{}, v...)
+			v[rng.Intn(len(v))] ^= byte(1 << uint(rng.Intn(8)))
+		case 2:
+			v = make([]byte, rng.Intn(24))
+			rng.Read(v)
+		}
+		values = append(values, v)
+	}
+	for _, v := range values {
+		for ci, chains := range chainSets {
+			exts := []pkix.Extension{{Id: oidAKI, Value: v}}
+			class := func() (c string) {
+				defer func() {
+					if p := recover(); p != nil {
+						c = fmt.Sprintf("panic: %v", p)
+					}
+				}()
+				cands, err := core.FindCertificateIssuerCandidates(&issuer, &exts, x509.ECDSA, chains)
+				if err != nil {
+					return "error"
+				}
+				for _, cd := range cands {
+					if cd == nil || cd.Certificate == nil {
+						return "panic: nil candidate returned"
+					}
+				}
+				return fmt.Sprintf("candidates=%d", len(cands))
+			}()
+			r.Eval(fmt.Sprintf("cand/%d/%s", ci, hexs(v)), true)
+			r.Count("candidate-search:" + strings.SplitN(class, ":", 2)[0])
+			if strings.HasPrefix(class, "panic") {
+				r.Violate("C07 panic candidate-search", fmt.Sprintf("authorityKeyIdentifier %s, chain set %d: %s", hexs(v), ci, class), map[string]string{"aki_hex": hexs(v)})
+			}
 		}
 	}
 }
